@@ -133,8 +133,9 @@ def case_strain(ctx, p):
         B0 = B0_of(c, k)
         Bs = np.linalg.inv(T_of(eps)) @ B0            # the strained B, built in the harness
         try:
-            B = mod.epsilon_to_b(list(eps), c)
-            e2 = mod.b_to_epsilon(B, c)
+            fk = int(abs(eps[0]) * 1e9)
+            B = mod.epsilon_to_b(gen.as_form(eps, fk), gen.as_form(c, fk + 1))
+            e2 = mod.b_to_epsilon(gen.as_form(B, fk + 2), c)
             mon.close("workload:%s.b_to_epsilon(epsilon_to_b(eps))=eps" % m, e2, eps, rtol=0, atol=TOL)
             e3 = mod.b_to_epsilon(Bs, c)
             B3 = mod.epsilon_to_b(e3, c)
